@@ -236,6 +236,18 @@ Definition run_c11 (c : sx) : sx :=
       | Ok hz, Ok p, Ok o => s_ok [sN hz; sN p; sN o]
       | _, _, _ => s_panic
       end
+  | SL [SZ 8; SB cfg; SB raw] =>
+      (* SetASC(cfg), Encode(raw), Decode(output) all on ONE ADTS object *)
+      match asc_unmarshal asc0 cfg with
+      | (_, Panic _) => s_panic
+      | (a, r) =>
+          let set := match r with Ok _ => SL (SZ 0 :: s_asc a) | Err e => SL (SZ 1 :: sN e :: s_asc a) | Panic _ => s_panic end in
+          match adts_encode a raw with
+          | Ok adts => SL [set; s_ok [SB adts; obs_dec (adts_decode a adts)]]
+          | Err e => SL [set; s_err e]
+          | Panic _ => s_panic
+          end
+      end
   | SL [SZ 9; SZ id; SZ layer; SZ pa; SZ profile; SZ sfi; SZ priv; SZ ch; SZ orig; SZ home;
         SZ cbit; SZ cstart; SZ fullness; SZ nblocks; SZ crc; SB raw; SB tail] =>
       let h := mk_hdr (Z.to_N id) (Z.to_N layer) (Z.to_N pa) (Z.to_N profile) (Z.to_N sfi) (Z.to_N priv)
